@@ -37,11 +37,11 @@ static void ycb(const volatile void *addr, const char *func, int line){ (void)ad
 static void cb(const volatile void *addr, unsigned size, int op, uint64_t o, uint64_t n, const char *func, int line){ (void)size;(void)o;(void)n;(void)line;
   if(addr!=QS || op!=3 || !is_client) return;      // a client thread's successful compare-and-swap on q's state
   if(strcmp(func,"_dispatch_lane_class_barrier_complete") && strcmp(func,"_dispatch_lane_non_barrier_complete")) return;
-  if(rnd()%3==0){ atomic_fetch_add(&holds,1); usleep((useconds_t)(20+rnd()%200)); } }
+  if(with_root==2 || rnd()%3==0){ atomic_fetch_add(&holds,1); usleep((useconds_t)(20+rnd()%200)); } }
 struct item { int which, is_async; long input, output; atomic_int done; unsigned spin; };
 static void work(void *c){ struct item *it=c; int d;
   if(it->which==2){ if(atomic_fetch_add(&in_q,1)) fail("two items of the serial queue whose target is being changed overlapped",0,0,0);
-    d=(int)(intptr_t)dispatch_get_specific(&key)-1; if(d==-1 && with_root) d=2; else if(d!=0 && d!=1){ fail("an item of the retargeted queue ran under neither of its targets: queue-specific value",d+1,0,0); d=0; } }
+    d=(int)(intptr_t)dispatch_get_specific(&key)-1; if(d==-1 && with_root==1) d=2; else if(d!=0 && d!=1){ fail("an item of the retargeted queue ran under neither of its targets: queue-specific value",d+1,0,0); d=0; } }
   else d=it->which;
   if(d==2){ for(volatile unsigned i=it->spin;i;i--){} atomic_fetch_sub(&in_q,1); it->output=it->input+1; atomic_fetch_add(&n_items,1); atomic_fetch_add(&progress,1);      // under the global queue: only q's own exclusion applies
     if(it->is_async){ free(it); atomic_fetch_sub(&async_out,1); } else atomic_store(&it->done,1); return; }
@@ -51,7 +51,7 @@ static void work(void *c){ struct item *it=c; int d;
   it->output=it->input+1; atomic_fetch_add(&n_items,1); atomic_fetch_add(&progress,1);
   if(it->is_async){ free(it); atomic_fetch_sub(&async_out,1); } else atomic_store(&it->done,1); }
 static void *submitter(void *a){ long me=(long)a; long serial=0; is_client=1;
-  while(!atomic_load(&stop) && !viol){ int which = me<2 ? 2 : (int)(rnd()%2); int op=(int)(rnd()%4); dispatch_queue_t dq = which==2 ? q : t[which];
+  while(!atomic_load(&stop) && !viol){ int which = (me<2 || with_root==2) ? 2 : (int)(rnd()%2); int op=(int)(rnd()%4); dispatch_queue_t dq = which==2 ? q : t[which];
     if(op==3){ if(atomic_load(&async_out)>1000) continue; struct item *it=calloc(1,sizeof *it); it->which=which; it->is_async=1; it->spin=(unsigned)(rnd()%30000);
       atomic_fetch_add(&async_out,1); dispatch_async_f(dq,it,work); continue; }
     struct item it; memset(&it,0,sizeof it); it.which=which; it.spin=(unsigned)(rnd()%30000); it.input=++serial;
@@ -60,7 +60,10 @@ static void *submitter(void *a){ long me=(long)a; long serial=0; is_client=1;
     else if(it.output!=it.input+1) fail("the result of a synchronously submitted item was not visible after the call returned",which,0,0); }
   atomic_fetch_add(&thr_done,1); return 0; }
 static void *retargeter(void *a){ (void)a; int next=1; is_client=1;
-  while(!atomic_load(&stop) && !viol){ if(with_root && rnd()%2) next=2; dispatch_set_target_queue(q,t[next]);
+  while(!atomic_load(&stop) && !viol){ if(with_root==2){      // every new target is a fresh queue that q alone owns: the old one goes away with the change (F50: while a returning dispatch_sync still held its lock)
+      dispatch_queue_t f=dispatch_queue_create("rt.f",NULL); dispatch_queue_set_specific(f,&key,(void*)1,NULL); dispatch_set_target_queue(q,f); dispatch_release(f);
+      atomic_fetch_add(&flips,1); usleep((useconds_t)(rnd()%40)); continue; }
+    if(with_root==1 && rnd()%2) next=2; dispatch_set_target_queue(q,t[next]);
     struct item s; memset(&s,0,sizeof s); s.which=2; dispatch_sync_f(q,&s,work);       // q is known to have moved before it is flipped again
     atomic_fetch_add(&flips,1); next = next==2 ? (int)(rnd()%2) : next^1; usleep((useconds_t)(with_root ? 20+rnd()%60 : 100+rnd()%300)); }
   atomic_fetch_add(&thr_done,1); return 0; }
@@ -74,7 +77,7 @@ int main(int argc,char**argv){ seed=argc>1?strtoull(argv[1],0,0):1; int nthr=arg
   with_root = argc>4 ? atoi(argv[4]) : 0; t[2]=(dispatch_queue_t)dispatch_get_global_queue(0,0);
   t[0]=dispatch_queue_create("rt.t0",NULL); t[1]=dispatch_queue_create("rt.t1",NULL); q=dispatch_queue_create("rt.q",NULL);
   dispatch_queue_set_specific(t[0],&key,(void*)1,NULL); dispatch_queue_set_specific(t[1],&key,(void*)2,NULL); dispatch_set_target_queue(q,t[0]);
-  QS=_dispatch_verif_queue_state_addr(q); _dispatch_verif_atomic_cb=cb; if(with_root) _dispatch_verif_yield_cb=ycb;
+  QS=_dispatch_verif_queue_state_addr(q); _dispatch_verif_atomic_cb=cb; if(with_root==1) _dispatch_verif_yield_cb=ycb;
   struct sigaction sa; memset(&sa,0,sizeof sa); sa.sa_handler=on_usr1; sigaction(SIGUSR1,&sa,0); nthr_g=nthr;
   pthread_t rt, pg; for(long i=0;i<nthr;i++) pthread_create(&th[i],0,submitter,(void*)i); pthread_create(&rt,0,retargeter,0); pthread_create(&pg,0,pinger,0);
   long last=-1; int idle=0;
